@@ -281,10 +281,13 @@ def lens_spec(draw, profile='paraxial', min_surfs=1, max_surfs=None, force_infin
             else:
                 s['mat'] = AIR
         if P.allow_tilt and draw(st.integers(0, 3)) == 0:
-            s['dx'] = draw(f(-0.1, 0.1)) * h
-            s['dy'] = draw(f(-0.1, 0.1)) * h
-            s['rx'] = draw(f(-0.1, 0.1))
-            s['ry'] = draw(f(-0.1, 0.1))
+            mode = draw(st.integers(0, 2))      # 0: tilt only, 1: decentre only, 2: both
+            if mode != 0:
+                s['dx'] = draw(f(-0.1, 0.1)) * h
+                s['dy'] = draw(f(-0.1, 0.1)) * h
+            if mode != 1:
+                s['rx'] = draw(f(-0.1, 0.1))
+                s['ry'] = draw(f(-0.1, 0.1))
         if P.allow_apertures and draw(st.integers(0, 2)) == 0:
             rmax = draw(f(0.5, 1.5)) * h
             rmin = draw(f(0.0, 0.4)) * h if draw(st.integers(0, 2)) == 0 else 0.0
